@@ -12,6 +12,7 @@ import ActsModel.Driver.Op
 import ActsModel.Driver.Progress
 import ActsModel.Driver.Ref
 import ActsModel.Driver.Hier
+import ActsModel.Driver.Catch
 open Lean Acts.Driver
 
 def dispatch (req : Lean.Json) : Lean.Json :=
@@ -32,6 +33,7 @@ def dispatch (req : Lean.Json) : Lean.Json :=
   | "c01.monitor" => progressCase req
   | "ref.eval" => refCase req
   | "c03.monitor" => hierCase req
+  | "c06.bubble" => bubbleCase req
   | "ping" => Lean.Json.mkObj [("pong", Lean.Json.bool true)]
   | c => Lean.Json.mkObj [("error", Lean.Json.str s!"unknown cmd {c}")]
 
